@@ -34,6 +34,12 @@ def run_worker_script(answers):
         def wait(self, timeout=None):
             return self.is_set()
 
+        def set(self):              # a worker that sets the shared stop signal itself: recorded, see run_siblings for what it does to a sibling
+            trace["stop_set_by_worker"] = trace.get("stop_set_by_worker", 0) + 1
+
+        def clear(self):
+            pass
+
     class InQ:
         def get(self, timeout=None, block=True):
             a = sc.next("get")
@@ -100,6 +106,106 @@ def run_worker_script(answers):
     return trace
 
 
+def run_siblings(jobs, when):
+    """Two real WorkerProcess objects sharing one job queue, one result queue and one stop signal, run in one thread under a
+    fixed schedule: worker B runs; while B is inside execute_job of its `when`-th job, sibling A runs to its end (it takes the
+    remaining jobs and the sentinel); then B resumes.  Nobody but the workers touches the stop signal."""
+    from transposon.worker import WorkerProcess, Sentinel
+    import collections
+    inq, outq = collections.deque(list(jobs) + [Sentinel()]), []
+    tr = {"taken": {"A": [], "B": []}, "accepted": [], "stop_set": False, "exited": {}, "sentinels_left": None}
+
+    class Ev:
+        def is_set(self):
+            return tr["stop_set"]
+
+        def wait(self, timeout=None):
+            return tr["stop_set"]
+
+        def set(self):
+            tr["stop_set"] = True
+
+        def clear(self):
+            tr["stop_set"] = False
+
+    class InQ:
+        def __init__(self, who):
+            self.who = who
+
+        def get(self, timeout=None, block=True):
+            if not inq:
+                raise queue.Empty()
+            x = inq.popleft()
+            if not isinstance(x, Sentinel):
+                tr["taken"][self.who].append(x)
+            return x
+
+        def get_nowait(self):
+            return self.get(block=False)
+
+        def put(self, x, *a, **k):
+            inq.append(x)
+
+        def put_nowait(self, x):
+            inq.append(x)
+
+        def empty(self):
+            return not inq
+
+        def full(self):
+            return False
+
+        def qsize(self):
+            return len(inq)
+
+    class OutQ:
+        def put(self, x, timeout=None, block=True):
+            outq.append(x)
+
+        def put_nowait(self, x):
+            outq.append(x)
+
+        def full(self):
+            return False
+
+        def empty(self):
+            return not outq
+
+        def qsize(self):
+            return len(outq)
+
+    ev, out = Ev(), OutQ()
+    state = {"n": 0}
+
+    class A(WorkerProcess):
+        def execute_job(self, job):
+            return job + 100
+
+    def run_one(w, who):
+        try:
+            w.run()
+            tr["exited"][who] = "returned"
+        except Exception as e:
+            tr["exited"][who] = "exception %s: %s" % (type(e).__name__, e)
+
+    class B(WorkerProcess):
+        def execute_job(self, job):
+            state["n"] += 1
+            if state["n"] == when:
+                run_one(A(InQ("A"), out, ev), "A")
+            return job + 100
+
+    run_one(B(InQ("B"), out, ev), "B")
+    tr["accepted"] = list(outq)
+    tr["sentinels_left"] = sum(1 for x in inq if isinstance(x, Sentinel))
+    tr["jobs_left"] = [x for x in inq if not isinstance(x, Sentinel)]
+    return tr
+
+
+def op_worker_siblings(req):
+    return {"ok": True, "traces": [run_siblings(c["jobs"], c["when"]) for c in req["cases"]]}
+
+
 def op_worker_scripts(req):
     return {"ok": True, "traces": [run_worker_script(s) for s in req["scripts"]]}
 
@@ -145,4 +251,4 @@ def op_realproc(req):
             q_.cancel_join_thread()
 
 
-OPS = {"worker.scripts": op_worker_scripts, "worker.realproc": op_realproc}
+OPS = {"worker.scripts": op_worker_scripts, "worker.siblings": op_worker_siblings, "worker.realproc": op_realproc}
